@@ -2,6 +2,7 @@ import LunarVerif.Base.Proto
 import LunarVerif.Spec.C18
 import LunarVerif.Spec.C18Sharing
 import LunarVerif.Spec.C18Expire
+import LunarVerif.Spec.C18Vacuum
 /-! Driver for C18.
   `access s=<struct> f=<field> fn=<func> w=<0|1> locks=<name:x|r,...|-> atomic=<0|1> init=<0|1>`
      one extracted access fact (a case = all facts of one field); answer `ok`.
@@ -58,6 +59,19 @@ structure RunSt where
   scripts : Scripts := []
   tctx : TCtx := fresh
   ex : Expire.St := {}
+  vx : Vacuum.St := {}
+
+def sortStrs (l : List String) : List String := (l.toArray.qsort (· < ·)).toList
+
+/-- `vcfg ttl=<ms> tick=<ms>` | `vadd k=<key>` | `vpass adv=<ms> [add=<key>]` -/
+def vStep (v : Vacuum.St) (ws : List String) : Option Vacuum.St :=
+  match ws with
+  | "vcfg" :: r => do pure { ttl := (← kvNat r "ttl"), tick := (← kvNat r "tick") }
+  | "vadd" :: r => do pure (Vacuum.vadd v (pctDec (← kv r "k")))
+  | "vpass" :: r => do
+    let adv ← kvNat r "adv"
+    pure (Vacuum.advance (adv + 1) v (v.now + adv) ((kv r "add").map pctDec))
+  | _ => none
 
 /-- `xadd k=<key> d=<ms>` | `xdiscard k=<key>` | `xsleep n=<ms>` | `xsweep keys=<k1,k2,...>` -/
 def parseX (ws : List String) : Option Expire.Op :=
@@ -92,6 +106,14 @@ def runStep (s : RunSt) (line : String) : RunSt × String :=
   | "xsweep" :: ws =>
     let ex := Expire.step s.ex .sweep
     ({ s with ex := ex }, "present=" ++ fmtKeys (Expire.present ex (xKeys ws)))
+  | "vcfg" :: _ | "vadd" :: _ =>
+    match vStep s.vx (words line) with
+    | some v => ({ s with vx := v }, "ok")
+    | none => (s, "bad-op")
+  | "vpass" :: _ =>
+    match vStep s.vx (words line) with
+    | some v => ({ s with vx := v }, "map=" ++ fmtKeys (sortStrs v.map))
+    | none => (s, "bad-op")
   | "retain" :: _ => (s, "stable")          -- a lookup's answer is a value: later lookups cannot change it
   | "retain-conc" :: _ => (s, "stable")
   | "stress-sadd" :: _ => (s, "ok")        -- every one-at-a-time order admits at most `max`
@@ -105,6 +127,9 @@ def runStep (s : RunSt) (line : String) : RunSt × String :=
   | _ => (s, "bad-op")
 
 structure JudgeSt where
+  vx : Vacuum.St := {}
+  vreg : List (String × Nat) := []
+  vlast : Option Nat := none
   ex : Expire.St := {}
   accs : List Access := []
   scripts : Scripts := []
@@ -134,6 +159,37 @@ def judgeStep (s : JudgeSt) (op out : String) : JudgeSt :=
         else { s with bad := some ("live-stored-request-removed-by-cleanup:" ++ pctEnc out) }
       else { s with bad := some ("unparsable-sweep-answer:" ++ pctEnc out) }
     | _ => { s with bad := some ("unparsable-sweep-answer:" ++ pctEnc out) }
+  | "vcfg" :: _ =>
+    match vStep s.vx (words op) with
+    | some v => { s with vx := v }
+    | none => { s with bad := some "unparsable-vacuum-op" }
+  | "vadd" :: r =>
+    match vStep s.vx (words op), kv r "k" with
+    | some v, some k =>
+      -- the first registration starts the goroutine, whose first pass runs at once (nothing is due)
+      let last := if s.vx.wakeAt.isNone then some s.vx.now else s.vlast
+      { s with vx := v, vlast := last, vreg := (pctDec k, s.vx.now + s.vx.ttl) :: s.vreg.filter (·.1 != pctDec k) }
+    | _, _ => { s with bad := some "unparsable-vacuum-op" }
+  | "vpass" :: r =>
+    match vStep s.vx (words op), kvNat r "adv" with
+    | some v, some adv =>
+      -- clock bookkeeping only: did a pass run, when was the first / the last one
+      let first := match s.vx.wakeAt with
+        | some w => if w ≤ s.vx.now + adv then some (max s.vx.now w) else none
+        | none => none
+      let last := match first, v.wakeAt with
+        | some _, some w' => some (w' - v.tick)
+        | _, _ => s.vlast
+      let reg := match first, kv r "add" with
+        | some p, some k => (pctDec k, p + s.vx.ttl) :: s.vreg.filter (·.1 != pctDec k)
+        | _, _ => s.vreg
+      let s := { s with vx := v, vreg := reg, vlast := last }
+      if out.startsWith "map=" then
+        let ks := xKeys [("keys=" ++ (out.drop 4).toString)]
+        if Vacuum.notForgotten reg last ks then s
+        else { s with bad := some ("registered-key-never-vacuumed:" ++ pctEnc out) }
+      else { s with bad := some ("unparsable-vacuum-answer:" ++ pctEnc out) }
+    | _, _ => { s with bad := some "unparsable-vacuum-op" }
   | "retain-conc" :: _ => if out == "stable" then s else { s with bad := some ("lookup-answer-changed-by-another-transaction:" ++ pctEnc out) }
   | "retain" :: _ => if out == "stable" then s else { s with bad := some ("lookup-answer-changed-by-another-transaction:" ++ pctEnc out) }
   | "stress-sadd" :: _ => if out == "ok" then s else { s with bad := some ("atomic-core-bound-exceeded:" ++ pctEnc out) }
